@@ -178,10 +178,16 @@ def sympy_to_python_fn(
     """
     fn_args = ", ".join(f"{i}: float" for i in args)
 
-    # Model quantities are real numbers. Sympy writes re(x) / im(x) when it simplifies
-    # e.g. Abs(exp(-x)) for symbols without assumptions, which cannot be printed
-    expr = expr.replace(sympy.re, lambda arg: arg).replace(
-        sympy.im, lambda _: sympy.Float(0.0)
+    # Model quantities are real numbers. Sympy writes re(x) / im(x) / arg(x) when it
+    # simplifies e.g. Abs(exp(-x)) for symbols without assumptions, which cannot be
+    # printed. The argument of a real number is 0 or pi
+    expr = (
+        expr.replace(sympy.re, lambda arg: arg)
+        .replace(sympy.im, lambda _: sympy.Float(0.0))
+        .replace(
+            sympy.arg,
+            lambda arg: sympy.Piecewise((sympy.Float(0.0), arg >= 0), (sympy.pi, True)),
+        )
     )
 
     # Sympy prints sech, csch and coth by rewriting the whole expression in terms of
